@@ -78,7 +78,7 @@ class P:
                 elif k < 0.93:
                     # collating symbols and equivalence classes: a single character stands for itself (also as a range end),
                     # anything else is rejected; their text never reaches the regular expression unescaped
-                    x = rnd.choice([a, a, b"]", b"-", b".", b"=", b")|(", b"a+", b"", b"ab", "\u00e9".encode(), b"\xff"])
+                    x = rnd.choice([a, a, b"]", b"-", b".", b"=", b")|(", b"a+", b"", b"ab", "\u00e9".encode(), b"\xff", "\ufffd".encode()])
                     o, c_ = rnd.choice([(b"[.", b".]"), (b"[=", b"=]")])
                     m_ = o + x + c_
                     if rnd.random() < 0.3:
